@@ -10,6 +10,7 @@ Model (matches multiprocessing.Pool as the repo uses it):
   * imap_unordered delivers results in completion order; imap in submission order
   * an exception in the task body is re-raised at the consumer's next() for that result
   * a lost worker's result never arrives: the consumer would block for ever -> SimHang
+  * chunksize > 1: consecutive tasks share one pickle message and one worker (see _ChunkIter)
 """
 import pickle
 
@@ -162,6 +163,138 @@ class _Iter:
                 raise StopIteration
 
 
+class _ChunkIter:
+    """imap / imap_unordered with chunksize > 1, as multiprocessing does it: consecutive tasks travel to a worker in ONE message
+    (objects shared between the tasks of a chunk stay shared inside the worker), the worker runs them one after the other and sends
+    one result message; an exception in any task fails the whole chunk and ends the iteration at the consumer."""
+
+    def __init__(self, pool, func, tasks, ordered, chunksize):
+        self.pool, self.func, self.ordered = pool, func, ordered
+        self.tasks = tasks
+        self.units = [list(range(i, min(i + chunksize, len(tasks)))) for i in range(0, len(tasks), chunksize)]
+        self.n = len(self.units)
+        self.next_start = 0
+        self.running = []
+        self.ready = []          # (unit, kind, payload)
+        self.buffer = []         # items of the chunk being handed out: (task index, value)
+        self.delivered = 0
+        self.next_ordered = 0
+        self.lost = set()
+        self.finished = False
+
+    def __iter__(self):
+        return self
+
+    def _enabled(self):
+        ev = []
+        if self.next_start < self.n and len(self.running) < self.pool.processes:
+            ev.append(('start', self.next_start))
+        for u in self.running:
+            ev.append(('complete', u))
+        return ev
+
+    def _step(self):
+        ev = self._enabled()
+        if not ev:
+            return False
+        sch = self.pool.sched
+        kind, u = ev[sch.choose(len(ev))]
+        pid = self.pool.pool_id
+        if kind == 'start':
+            self.next_start += 1
+            self.running.append(u)
+            sch.log.add('pool', pid, 'start-chunk', u)
+        else:
+            self.running.remove(u)
+            self._complete(u)
+        return True
+
+    def _complete(self, u):
+        sch = self.pool.sched
+        pid = self.pool.pool_id
+        idx = self.units[u]
+        faults = {i: (self.pool.faults.get((pid, i)) or self.pool.faults.get(('*', i))) for i in idx}
+        if any(f == 'lost-before' for f in faults.values()):
+            self.lost.add(u)
+            sch.log.add('pool', pid, 'worker-lost-before', u)
+            self.pool.fired('worker_lost')
+            return
+        try:
+            args = pickle.loads(pickle.dumps([self.tasks[i] for i in idx]))      # one message: sharing inside the chunk survives
+        except Exception as e:
+            self.ready.append((u, 'exc', e))
+            sch.log.add('pool', pid, 'unpicklable-arg', u)
+            return
+        try:
+            out = []
+            for i, arg in zip(idx, args):
+                if faults[i] == 'exception':
+                    self.pool.fired('worker_exception')
+                    raise self.pool.exception_factory(i)
+                hook = self.pool.task_hook
+                out.append(hook(self.func, arg, pid, i) if hook else self.func(arg))
+            payload = ('ok', pickle.loads(pickle.dumps(out)))
+        except Exception as e:
+            try:
+                e2 = pickle.loads(pickle.dumps(e))
+            except Exception:
+                e2 = RuntimeError(repr(e))
+            payload = ('exc', e2)
+        if any(f == 'lost-after' for f in faults.values()):
+            self.lost.add(u)
+            sch.log.add('pool', pid, 'worker-lost-after', u)
+            self.pool.fired('worker_lost')
+            return
+        self.ready.append((u,) + payload)
+        sch.log.add('pool', pid, 'complete-chunk', u, payload[0])
+
+    def __next__(self):
+        sch = self.pool.sched
+        pid = self.pool.pool_id
+        while True:
+            if self.buffer:
+                i, v = self.buffer.pop(0)
+                sch.log.add('pool', pid, 'deliver', i, 'ok')
+                self.pool.order.append(i)
+                return v
+            if self.finished:
+                raise StopIteration
+            if self.delivered + len(self.lost) >= self.n and not self.ready:
+                if self.lost:
+                    sch.log.add('pool', pid, 'HUNG', sorted(self.lost))
+                    raise SimHang(f'pool {pid}: results of chunks {sorted(self.lost)} never arrive')
+                raise StopIteration
+            deliverable = None
+            if self.ordered:
+                for k, r in enumerate(self.ready):
+                    if r[0] == self.next_ordered:
+                        deliverable = k
+                        break
+                if deliverable is None and self.next_ordered in self.lost:
+                    sch.log.add('pool', pid, 'HUNG', sorted(self.lost))
+                    raise SimHang(f'pool {pid}: ordered chunk {self.next_ordered} never arrives')
+            elif self.ready:
+                deliverable = 0
+            if deliverable is not None and self._enabled() and sch.choose(2, 'pile') == 1:
+                self._step()
+                continue
+            if deliverable is not None:
+                u, kind, payload = self.ready.pop(deliverable)
+                self.delivered += 1
+                self.next_ordered += 1
+                if kind == 'exc':
+                    sch.log.add('pool', pid, 'deliver-chunk', u, 'exc')
+                    self.finished = True      # the generator wrapping the chunk results dies with the exception
+                    raise payload
+                self.buffer = list(zip(self.units[u], payload))
+                continue
+            if not self._step():
+                if self.lost:
+                    sch.log.add('pool', pid, 'HUNG', sorted(self.lost))
+                    raise SimHang(f'pool {pid}: results of chunks {sorted(self.lost)} never arrive')
+                raise StopIteration
+
+
 class SimPoolFactory:
     """bind `factory.Pool` (or the factory itself, it is callable) to the name the repo module uses"""
 
@@ -214,9 +347,13 @@ class SimPool:
         return False
 
     def imap_unordered(self, func, iterable, chunksize=1):
+        if chunksize and chunksize > 1:
+            return _ChunkIter(self, func, list(iterable), False, chunksize)
         return _Iter(self, func, list(iterable), ordered=False)
 
     def imap(self, func, iterable, chunksize=1):
+        if chunksize and chunksize > 1:
+            return _ChunkIter(self, func, list(iterable), True, chunksize)
         return _Iter(self, func, list(iterable), ordered=True)
 
     def map(self, func, iterable, chunksize=None):
